@@ -175,7 +175,9 @@ class Report:
                 self.violation(f['name'], 'deductive', f.get('model'), 'obligation discharged',
                                'counter-model found by %s' % f.get('solver', 'solver'),
                                replay={'kind': 'obligation', 'contract': f['key'], 'native_replay': rp,
-                                       'related_bounded_witness': jsonable(bounded[0].witness) if bounded else None},
+                                       'related_bounded_witness': jsonable(bounded[0].witness) if bounded else None,
+                                       'related_bounded_replay': jsonable(bounded[0].replay) if bounded else None,
+                                       'related_bounded_obligation': bounded[0].obligation if bounded else None},
                                found_input=bool(rp and rp.get('confirmed')) or bool(bounded),
                                solver_output=f.get('reason') or 'sat', tier=f.get('tier', 'P'))
             elif changed:
@@ -184,7 +186,9 @@ class Report:
                                'function text %s)' % base.get('hash'),
                                'undischarged for function text %s: %s' % (f['hash'], f.get('reason') or 'unknown'),
                                replay={'kind': 'obligation', 'contract': f['key'],
-                                       'related_bounded_witness': jsonable(bounded[0].witness) if bounded else None},
+                                       'related_bounded_witness': jsonable(bounded[0].witness) if bounded else None,
+                                       'related_bounded_replay': jsonable(bounded[0].replay) if bounded else None,
+                                       'related_bounded_obligation': bounded[0].obligation if bounded else None},
                                found_input=bool(bounded), solver_output=f.get('reason') or 'unknown/timeout', tier=f.get('tier', 'P'))
             else:
                 # unchanged function text (or never proved): solver instability / engine limit, not a violation
